@@ -2,8 +2,8 @@
     Only statements, each closed by [exact] (or a two-line proof), with [Print Assumptions].
     Model: [Account.Model] (threads = doIssue / newACMEClientWithAccount calls of any number of
     instances; CA index [c]; counters fsaves / crashes / deletes / resets are ghost). *)
-From CM Require Import Lib.Str Gen.Consts Account.Model Account.Proofs Account.Recreate Account.Url
-  Account.Examples.
+From CM Require Import Lib.Str Lib.Wire Gen.Consts Account.Model Account.Check Account.Proofs
+  Account.Recreate Account.Url Account.Examples Account.Monitor.
 From Coq Require Import Arith.
 Open Scope nat_scope.
 
@@ -107,6 +107,32 @@ Corollary C20_never_plain_http_to_public_host :
   parse (effective d) = Some (scheme, host) -> scheme <> url_https_scheme -> internal host = true.
 Proof. exact never_plain_http_to_public_host. Qed.
 Print Assumptions C20_never_plain_http_to_public_host.
+
+(** The run-time monitor ([Check.spec_hist], evaluated by the check on the *implementation's*
+    observations) is the theorems' statement: on every history — any threads, schedule, faults,
+    crashes, re-installations — on which the observations are those the model expects, its
+    clauses (a) registrations bounded, (b) persisted together, (c) reuse of the stored account,
+    (e) only the directory in use is touched, all hold; clause (d) (no complete, live account is
+    deleted) holds on sequential histories. So a spec failure on an implementation history means
+    that the implementation left the model or that the property fails. *)
+Theorem C20_monitor_sound : forall evs s f,
+  replay init evs = Some (s, true) -> final_agree s f = true ->
+  o_ok_e (orun evs) = true /\ spec_cas (orun evs) f 0 (f_cas f) = true.
+Proof. exact monitor_sound. Qed.
+Print Assumptions C20_monitor_sound.
+
+Theorem C20_monitor_sound_sequential : forall evs s f,
+  replay init evs = Some (s, true) -> final_agree s f = true -> seq_hist init evs ->
+  spec_hist evs f = true.
+Proof. exact spec_hist_sound_sequential. Qed.
+Print Assumptions C20_monitor_sound_sequential.
+
+Example C20_ex_monitor :
+  (exists s, replay init ex_history = Some (s, true) /\ final_agree s ex_final = true) /\
+  seq_hist init ex_history.
+Proof.
+  destruct ex_history_agrees as (H1 & H2 & _). split; [exact (model_agrees_hist _ _ H1)|exact H2].
+Qed.
 
 (** non-vacuity: the hypotheses above are met by non-trivial reachable states *)
 Example C20_ex_first_use : exists s, reachable s /\ created s 0 = 1 /\ fsaves s 0 = 0 /\
